@@ -19,7 +19,9 @@ META = {
                   "1..size) with every single fault (drop of any item, duplicate of any sent package at any later point, swap of "
                   "neighbours, resize to every other length) and one unrelated message anywhere; two interleaved transfers of 1..2 "
                   "packages, all interleavings, one fault in total (thorough: one fault per transfer, and 1..3 packages); one transfer "
-                  "with a single fault plus one additional duplicate of any package that was on the wire. Every "
+                  "with a single fault plus one additional duplicate of any package that was on the wire; two fault-free interleaved "
+                  "transfers with shared or distinct base names with the auto-save directory as state and a file appearing in it at "
+                  "any point (the directory only grows; listing recorded after every message). Every "
                   "such behaviour is executed on the real plugin; zero drift is required for the fast path.",
     "level_note": "Narrower readings: with a LOST announcement only the safety half is required (observation #16: lost FLST + "
                   "shorter last package ends Incomplete); auto-save is only required to stay inside the configured directory "
@@ -118,6 +120,20 @@ def binding_selftest(ctx, cases, v, kf):
             e["kinds"] = [[x for x in ks if x != "complete"] or ["started"] for ks in e["kinds"]]
         muts.append(("in-order transfer never reported complete", t))
         muts.append(("unchanged (control: must be accepted)", copy.deepcopy(cases[ok])))
+    # the auto-save directory only grows: a file seen once must keep its bytes and must not vanish
+    dk = next((k for k in good if sum(1 for e in cases[k] if e["ev"] == "msg" and e["dir"]) >= 2), None)
+    if dk is not None:
+        t = copy.deepcopy(cases[dk]); ms = [e for e in t if e["ev"] == "msg" and e["dir"]]
+        ms[-1]["dir"][0]["hash"] ^= 1
+        muts.append(("file in the auto-save directory changed its bytes", t))
+        t = copy.deepcopy(cases[dk]); ms = [e for e in t if e["ev"] == "msg" and e["dir"]]
+        ms[-1]["dir"] = ms[-1]["dir"][1:]
+        muts.append(("file in the auto-save directory vanished", t))
+        t = copy.deepcopy(cases[dk]); ms = [e for e in t if e["ev"] == "msg"]
+        ms[0]["dir"] = ms[0]["dir"] + [{"name": "stray.bin", "len": 3, "hash": 7}]
+        muts.append(("unexplained file in the auto-save directory", t))
+    elif not ctx.violations:
+        raise c.ToolError("binding self-test: no accepted case with a populated auto-save directory")
     au = next((k for k in good if any(e["ev"] == "tree" and e["new"] for e in cases[k])), None)
     if au is not None:
         t = copy.deepcopy(cases[au]); e = next(e for e in t if e["ev"] == "tree"); e["new"][0]["inside"] = False
@@ -155,7 +171,9 @@ def check(ctx):
     # (a)+(b) model checking (invariants incl. the cross-check contract classification == sender fault classes) and emission
     # dupalso: one duplicate of a package that was on the wire IN ADDITION to the single fault (safety must still hold; this is
     # what exposes regressions of the package-number logic that the file-size check masks under a single fault)
-    cfgs = ["FileTransfer_single_emit.cfg", "FileTransfer_dupalso_emit.cfg", "FileTransfer_pair_emit.cfg"]
+    # auto: the auto-save directory as state - two interleaved transfers that may SHARE a base name (different directory parts,
+    # identical names), all interleavings, a file appearing in the directory at any point (environment action)
+    cfgs = ["FileTransfer_single_emit.cfg", "FileTransfer_dupalso_emit.cfg", "FileTransfer_pair_emit.cfg", "FileTransfer_auto_emit.cfg"]
     if not quick:
         cfgs += ["FileTransfer_pair2_emit.cfg", "FileTransfer_pair3_emit.cfg"]
     scns = []
@@ -163,7 +181,7 @@ def check(ctx):
     for cfg in cfgs:
         res = c.tlc_must_pass(ctx, cfg[13:-4], "FileTransfer.tla", cfg, timeout=3000)
         for s in c.scn_lines(res):
-            key = json.dumps([s["shape"], s["wire"]], sort_keys=True)
+            key = json.dumps([s["shape"], s["wire"], s.get("auto"), s.get("base")], sort_keys=True)
             if key not in seen:
                 seen.add(key)
                 scns.append(s)
@@ -240,7 +258,8 @@ def check(ctx):
     ctx.extra["contract_paths"] = fired
     need = ["fault_dropFLST", "fault_dropFLFI", "fault_dropPkg", "fault_dup", "fault_swap", "fault_resize", "fault_none", "two_transfers",
             "with_unrelated_message", "last_package_shorter", "package_size_1", "file_of_one_package", "cfg_allow_save+auto_save",
-            "cfg_auto_save_only", "rnd_interleaved_transfers", "rnd_dup", "rnd_swap", "rnd_resize", "rnd_foreign_apid_copy"]
+            "cfg_auto_save_only", "rnd_interleaved_transfers", "rnd_dup", "rnd_swap", "rnd_resize", "rnd_foreign_apid_copy",
+            "shared_base_name", "file_appears_in_auto_save_dir", "rnd_shared_base_name", "rnd_file_appears_in_auto_save_dir"]
     missing = [k for k in need if not info["paths"].get(k)] + [k for k, n in fired.items() if n == 0]
     ctx.extra["paths_never_exercised"] = missing
     if missing and not ctx.violations:      # (with violations the code may be too broken to reach a path: the verdict stands)
